@@ -142,7 +142,8 @@ def main():
             Nl = normal_maps(mesh.V, mesh.E, nmv)
             Cls = curl_maps(mesh.V, mesh.E, nmv_test)
             Nls = normal_maps(mesh.V, mesh.E, nmv_test)
-            for k in ks:
+            # complex wavenumbers with Im k > 0 on even option indices, Im k < 0 on odd ones
+            for k in [(np.conj(k_) if (isinstance(k_, complex) and oi % 2 == 1) else k_) for k_ in ks]:
                 cid = "W:%s:opt%d:k=%s" % (mname, oi, k)
                 if not ctx.want(cid):
                     continue
@@ -199,7 +200,7 @@ def main():
                 if sw:
                     o["swapped_normals"] = sw
             Rl, Dl = rwg_maps(mesh.V, mesh.E)
-            for k in [x for x in ks if x is not None and not isinstance(x, tuple)]:
+            for k in [(np.conj(x) if (isinstance(x, complex) and oi % 2 == 1) else x) for x in ks if x is not None and not isinstance(x, tuple)]:
                 cid = "E:%s:opt%d:k=%s" % (mname, oi, k)
                 if not ctx.want(cid):
                     continue
